@@ -176,6 +176,8 @@ pub struct Enc {
     pub f32: bool,
     /// writer presentation: hand the whole subtree over as one Master::Full
     pub full: bool,
+    /// harness bookkeeping: tags a node injected by a fault generator (no effect on encoding)
+    pub mark: bool,
 }
 
 #[derive(Clone, Debug, PartialEq, Eq, Hash)]
